@@ -1065,8 +1065,14 @@ def run_shard(shard, tier):
     core.hyp_search(cases(), judge, shard["n"], shard["seed"], col,
                     known_sigs=shard.get("known_sigs", ()), case_timeout=120,
                     shrink_s=20 if tier == "quick" else 240)
-    if shard["n"] >= 100 and not col.failures:
-        missing = [e for e in REQUIRED_EXITS if col.classes.get(e, 0) < 1]
-        if missing:
-            raise core.HarnessError(f"exit classes never reached in shard {shard['id']}: {missing}")
     return col.result()
+
+
+def post_merge(classes, evaluations, tier):
+    """Coverage guard over the whole run (a single Hypothesis shard can legitimately miss one
+    exit for a given seed): every exit of the multi-pass procedures must have been reached."""
+    if evaluations >= 1000:
+        missing = [e for e in REQUIRED_EXITS if classes.get(e, 0) < 1]
+        if missing:
+            return f"exit classes never reached in the whole run: {missing}"
+    return None
